@@ -12,7 +12,7 @@ use serde_json::json;
 pub fn meta() -> Meta {
     Meta {
         level: "exploration",
-        rule: "the supported subset of the model programs: every supported leaf template inside spines of k compound-statement contexts (block and single-statement bodies in every combination) after the declarations it needs, all sequences of n supported statements with annotation lines, and all two-operator trees and unary/postfix mixes over the supported operators in 6 expression positions; the skeleton of the graph (statement kinds, nesting, order, roles, operand and modifier order, operator identity, literal class and value, symbol names through the final table, annotations, pragma text) is compared with the one predicted from the model; non-trivial = programs with a compound statement or an operator; outcomes = distinct skeletons",
+        rule: "the supported subset of the model programs: every supported leaf template inside spines of k compound-statement contexts (block and single-statement bodies in every combination) after the declarations it needs, all sequences of n supported statements with annotation lines, and all two-operator trees and unary/postfix mixes over the supported operators in 6 expression positions; plus the file-system configurations of C18 with one directory and three files (programs with real included files, annotated includes, nested includes) whose graph must equal that of the textually inlined program; the skeleton of the graph (statement kinds, nesting, order, roles, operand and modifier order, operator identity, literal class and value, symbol names through the final table, annotations, pragma text) is compared with the one predicted from the model; non-trivial = programs with a compound statement or an operator; outcomes = distinct skeletons",
         assumptions: vec![
             "casts are transparent, declared types are not compared (C08/C09), includes of the standard library vanish, asg::IndexExpression offers no accessors so only its presence is compared",
             "programs that do not parse cleanly or on which the analyser panics are skipped here (C04/C03)",
@@ -116,10 +116,15 @@ pub fn spaces(tier: Tier, _seed: u64) -> Vec<Box<dyn Space>> {
         gprog::spines(0, false, true, true, oracle),
         gprog::spines(1, false, true, true, oracle),
         gprog::spines(2, false, true, true, oracle),
+        gprog::grid(0, true, true, oracle),
+        gprog::grid(1, true, true, oracle),
         gprog::sequences(1, true, true, oracle),
         gprog::sequences(2, true, true, oracle),
         expr_space("two_op"),
         expr_space("unary_mix"),
+        // "includes expanded in place": the graph of a program with real included files equals the
+        // graph of the program with the files' text written at the include sites (C18's oracle)
+        Box::new(crate::props::c18::Configs { ndirs: 1, nfiles: 3 }),
     ];
     if tier.is_thorough() {
         v.push(gprog::spines(3, false, true, true, oracle));
